@@ -2,7 +2,7 @@
 
    Symbolic model: AES-GCM is (seal, open_) with the laws of an authenticated cipher —
    correctness (open_seal), authenticity (open_auth: only seal outputs open), key separation
-   (open_wrong_key) — stated as hypotheses of the Section (that AES-GCM has these properties, and that
+   (open_wrong_key), separation by additional data (open_wrong_name) — stated as hypotheses of the Section (that AES-GCM has these properties, and that
    ciphertext reveals no plaintext fragment, is cryptography: assumed, see DESIGN.md "partial").
    C17_wiring: for every DSN / option / environment, if encryption is requested then Open fails or the
    handle encrypts with a key of 16, 24 or 32 bytes — it is never requested and silently off.
@@ -10,6 +10,8 @@
    C17_roundtrip / C17_tamper: get returns v for a file iff the file is nonce‖seal(key, nonce, v) for its
    own first 12 bytes as nonce; every other byte string — altered, truncated (also below 12 bytes),
    extended — yields an error, never data.  C17_wrong_key: another key never yields data.
+   C17_moved_file: the key an entry is stored under is additional authenticated data (open_wrong_name): a file written for
+   one key never opens under the name of another — copied, moved or exchanged files are rejected (fix F36).
    C17_distinct: two writes with different nonces differ (whatever the values).
    The run re-derives the files of the real backend with Go's own AES-GCM, scans them for plaintext,
    applies every single-byte change and every truncation, and drives each configuration path. *)
